@@ -217,7 +217,19 @@ impl World {
             out.push(TxFrame { raw: raw.clone(), pkt });
         }
         for f in &out {
-            self.link_send(n, f.raw.clone(), f.pkt.clone().map(Box::new), tape);
+            // Ethernet frames shorter than the 60-octet minimum are padded on their way (by the sending or the
+            // receiving adapter), here with non-zero octets: whatever follows the IP total length / the ARP packet is
+            // not part of the packet
+            let mut raw = f.raw.clone();
+            if self.views[n].medium == Medium::Ethernet && raw.len() < 60 && tape.chance(1, 3) {
+                let mut k = 0u8;
+                while raw.len() < 60 {
+                    raw.push(0xe0 | (k & 0x0f));
+                    k = k.wrapping_add(1);
+                }
+                self.stats.inc("link.ethernet-frames-padded-to-60-octets");
+            }
+            self.link_send(n, raw, f.pkt.clone().map(Box::new), tape);
         }
         Ok(out)
     }
